@@ -847,7 +847,8 @@ statement with `raw.resolve = some t`).  It is proved below for the decidable fr
   to the instruction that carried it), with its exception table (`end_pc = code_length` allowed), `LineNumberTable`, `LocalVariableTable` / `LocalVariableTypeTable` (every
   entry exactly one of descriptor / signature, descriptor entries first: the order in which the two tables are written
   and read back), `Runtime(In)VisibleTypeAnnotations` with the targets `localvar` / `resource` / `catch` / `offset` /
-  `type_argument`, no unknown attributes (dropped by `write_code`, see the witness), fewer than 65535 label references;
+  `type_argument`, unknown attributes of `Code` not named like an attribute the reader interprets there (written last since
+  the repair, `code_unknown_attributes_written`), fewer than 65535 label references;
   class attributes `Deprecated Synthetic InnerClasses EnclosingMethod Signature SourceFile SourceDebugExtension
   Runtime(In)VisibleAnnotations Runtime(In)VisibleTypeAnnotations Module ModulePackages ModuleMainClass NestHost
   NestMembers PermittedSubclasses Record` + unknown attributes; `Record` components with `Signature
@@ -859,7 +860,7 @@ statement with `raw.resolve = some t`).  It is proved below for the decidable fr
   named like a known one (`ClassOk`), every constant and string of the pool the writer builds within its field
   (`PoolOkOf`: the operand ranges of duke's tree types);
 * not yet in the fragment (modelled and tied byte-exactly, no read-back theorem): method bodies beyond the 32767-byte bound (widened jumps: covered
-  for the code array alone by sections 1-4), unknown attributes of `Code`.
+  for the code array alone by sections 1-4).
 
 Route: the bytes are `(layout).encode` for the `ClassRead.Spec.ClassLayout` the writer chooses (its pool, its indices,
 its attribute order: `class_write_layout_partial`), every index the writer used resolves **in the final pool** to the
@@ -988,7 +989,8 @@ example : (match ClassWriteFull.writeClass exampleModule with | .ok _ => true | 
 of a string, a method call, a conditional branch and a `goto` (labels 2 and 3), an `iinc`, a protected range with a handler (labels
 1, 2, 4; the catch type `java/lang/Exception`), stack map frames on the branch target (`append [int]`), the handler
 (`same_locals_1_stack_item [Object java/lang/Exception]`) and the `goto` target (`full` with an `Uninitialized(label 1)`),
-a line table, a local variable with a descriptor and one with a signature (live to the end of the code: `last_label` 5) -/
+a line table, a local variable with a descriptor and one with a signature (live to the end of the code: `last_label` 5),
+an unknown attribute `Foo` of the `Code` attribute -/
 def exampleCode : ClassRead.ClassFacts :=
   { exampleTree with
     access := 0x0021, name := [67], interfaces := [], fields := [],
@@ -1014,19 +1016,35 @@ def exampleCode : ClassRead.ClassFacts :=
              lastLabel := some 5,
              lines := some [(1, 10), (3, 12)],
              locals := some [⟨1, 5, [120], some [73], none, 0⟩, ⟨4, 5, [101], none, some [84, 84, 59], 1⟩],
-             rvta := [], ritva := [], attrs := [] },
+             rvta := [], ritva := [], attrs := [⟨[70, 111, 111], [1, 2, 3]⟩] },
          none, none, [], [], [], [], none, none, []⟩] }
 
 example : ClassWriteFull.InWriterFragment exampleCode := by decide +kernel
 example : (match ClassWriteFull.writeClass exampleCode with | .ok _ => true | .error _ => false) = true := by decide +kernel
 
-/-- `write_code` never looks at `Code.attributes`: whatever unknown attributes a method body carries, the same bytes are
-written — **the unknown attributes of `Code` are dropped** (the reader delivers them, `write_code` has no loop for them;
-witness on the real code: `oracle-cf-write-read full` on a class whose `Code` carries an attribute `Foo` answers
-`(fail other)`).  This is why `Code` with unknown attributes cannot enter the fragment of `class_write_read_partial`. -/
-theorem code_unknown_attributes_dropped_witness (c : ClassRead.Code) (as : List ClassRead.Attr) (p : PoolWrite.Pool)
-    (bs : List BootstrapWrite.Bsm) :
-    ClassWriteFull.writeCode { c with attrs := as } p bs = ClassWriteFull.writeCode c p bs := rfl
+/-- **regression theorem of the repaired defect** (`fix: class writer writes the unknown attributes of a method body`;
+before the repair `write_code` had no loop over `Code.attributes`, the model satisfied
+`writeCode { c with attrs := as } p bs = writeCode c p bs` and `oracle-cf-write-read full` on a class whose `Code`
+carries an attribute `Foo` answered `(fail other)`).  Every successful `write_code`, no fragment hypothesis: the
+attribute table of `Code` states the count of the known attributes that were written plus `Code.attributes.length`,
+then come the known attributes and then — last, as at class / field / method / record-component level — each unknown
+attribute as name index, `u32` length, bytes (`Spec.attrFrame`), the name indices being the ones the loop's `put_utf8`
+calls returned (`runAttrs (unknownAttrs c.attrs)` from the pool `q` after the known attributes). -/
+theorem code_unknown_attributes_written (c : ClassRead.Code) (p p' : PoolWrite.Pool) (bs bs' : List BootstrapWrite.Bsm)
+    (b : Bytes) (h : ClassWriteFull.writeCode c p bs = .ok (b, p', bs')) :
+    ∃ (pre : Bytes) (known : List Bytes) (q : PoolWrite.Pool) (ncs : List Nat), ncs.length = c.attrs.length ∧
+      ClassWriteFull.runAttrs (ClassWriteFull.unknownAttrs c.attrs) q
+        = .ok ((ncs.zip c.attrs).map (fun x => ClassRead.Spec.attrFrame x.1 x.2.bytes), p') ∧
+      known.length + c.attrs.length ≤ 65535 ∧ (∀ a ∈ c.attrs, a.bytes.length < 4294967296) ∧
+      b = pre ++ ClassRead.be16 (known.length + c.attrs.length) ++ known.flatten ++
+        ((ncs.zip c.attrs).map fun x => ClassRead.be16 x.1 ++ ClassRead.be32 x.2.bytes.length ++ x.2.bytes).flatten :=
+  ClassWriteFull.writeCode_unknown_written h
+
+/-- the unknown attribute of `exampleCode`'s method body reaches the written class: the bytes end with the class's
+attribute count after the method, whose `Code` attribute ends with `Foo`'s frame (name index, length 3, `1 2 3`) -/
+example : (match ClassWriteFull.writeClass exampleCode with
+    | .ok b => decide (([0, 0, 0, 3, 1, 2, 3] : Bytes) <:+: b)
+    | .error _ => false) = true := by decide +kernel
 
 /-! ## ═══ generated tables: the translator tie for `write_code` (independent of any test generator) ═══
 
